@@ -40,7 +40,7 @@ RULE = ("each run draws a server byte stream from a response grammar (every stat
         "plain connection, or GeminiClient.get/upload over TLS with a timeout of 1-30 s); baseline "
         "and segmented variant are both run. distinct = distinct (stream class, end, entry, result "
         "class); non-trivial = the stream was corrupted, cut short or segmented")
-PROBES = ["server_stream_damaged_in_transit", "overlapping_calls_on_one_client", "upload_larger_than_socket_buffers", "unknown_charset", "nontext_codec", "over_cap", "stall_timeout", "rst_mid_body",
+PROBES = ["server_answers_in_its_last_handshake_flight", "server_stream_damaged_in_transit", "overlapping_calls_on_one_client", "upload_larger_than_socket_buffers", "unknown_charset", "nontext_codec", "over_cap", "stall_timeout", "rst_mid_body",
           "fin_without_close_notify", "invalid_header", "must_succeed_core", "tls_entry",
           "titan_entry", "non2x_with_trailing_bytes", "connect_phase_fault", "trickling_server"]
 COMPONENTS = {
@@ -279,6 +279,9 @@ def run_case(ch, cfg, variant, damage=None):
                        "stall": ("stall",)}[cfg["end"]])
     tls = cfg["entry"] in ("get", "upload")
     srv = ScriptedServer(sim, HOST, 1965, "rsa1", lambda i, s: {"script": script}, tls=tls)
+    # TLS 1.2: the server's Finished is the last handshake message, so a server that does not
+    # wait for the request puts its answer into the same flight (and the same read)
+    srv.tls12 = bool(cfg.get("tls12"))
     if variant:
         pol = DrawnPolicy(ch, "s2c", cfg["segmode"], latency=0.001, delays=[0.001, 0.0, 0.01, 0.05],
                           dribble_limit=300)
@@ -644,6 +647,9 @@ def run_one(ch):
            "pieces": pieces, "segmode": ch.choose("segmode", 3, [2, 3, 1]),
            "trigger": ch.pick("trigger", ["line", "immediate"], [4, 1]),
            "tofu": bool(ch.choose("tofu", 2)), "scratch": fresh_dir("c13")}
+    if cfg["trigger"] == "immediate" and entry in ("get", "upload") and ch.chance("tls12", 0.6):
+        cfg["tls12"] = True
+        res.stats["server_answers_in_its_last_handshake_flight"] += 1
     base = run_case(ch, cfg, False)
     cfg["scratch"] = fresh_dir("c13b")
     var = run_case(ch, cfg, True)
